@@ -223,6 +223,34 @@ def emit() -> dict[str, str]:
     cap_conditional = re.search(r"if max_request_bytes is not None:\n\s+middleware\.append\(_MaxRequestBytesMiddleware\(max_request_bytes, exempt_prefixes=\(f'\{prefix\}/health',\)\)\)", ft) is not None
     mdec = re.search(r"decodable: tuple\[Encoding, \.\.\.\] = tuple\(\(enc for enc in \(([^)]*)\) if", ft)
     decodable = [x.strip().split(".")[-1] for x in mdec.group(1).split(",")] if mdec else []
+    # ---- how the accepted request codings are wired: one assignment, the env switch, nothing conditional on the level ----
+    fn = _func(ast.parse(fsrc), "make_wsgi_app")
+    assigns: dict[str, list[tuple[str, bool]]] = {"decodable": [], "zstd_disabled": [], "runtime": []}
+
+    def _collect(node: ast.AST, nested: bool) -> None:
+        for ch in ast.iter_child_nodes(node):
+            if isinstance(ch, (ast.Assign, ast.AnnAssign, ast.AugAssign)):
+                tg = ch.targets[0] if isinstance(ch, ast.Assign) else ch.target
+                if isinstance(tg, ast.Name) and tg.id in assigns and ch.value is not None:
+                    assigns[tg.id].append((ast.unparse(ch.value), nested))
+            _collect(ch, nested or isinstance(ch, (ast.If, ast.For, ast.While, ast.Try, ast.With)))
+
+    _collect(fn, False)
+    want_dec = "tuple((enc for enc in (Encoding.ZSTD, Encoding.GZIP) if enc in runtime and (not (zstd_disabled and enc is Encoding.ZSTD))))"
+    if assigns["decodable"] != [(want_dec, False)]:
+        raise Shape(f"factory: `decodable` is not assigned exactly once, unconditionally, as runtime minus disabled zstd: {assigns['decodable']}")
+    if assigns["runtime"] != [("set(available_encodings())", False)]:
+        raise Shape(f"factory: `runtime` wiring not recognised: {assigns['runtime']}")
+    menv = re.fullmatch(r"os\.environ\.get\('([A-Z_]+)'\) == '([^']*)'", assigns["zstd_disabled"][0][0]) if len(assigns["zstd_disabled"]) == 1 else None
+    if menv is None or assigns["zstd_disabled"][0][1]:
+        raise Shape(f"factory: `zstd_disabled` wiring not recognised: {assigns['zstd_disabled']}")
+    calls = [ast.unparse(c) for c in ast.walk(fn) if isinstance(c, ast.Call) and ast.unparse(c.func) == "_CompressionMiddleware"]
+    if len(calls) != 1 or "decode_encodings=decodable" not in calls[0]:
+        raise Shape(f"factory: _CompressionMiddleware is not built with decode_encodings=decodable: {calls}")
+    init_src = ast.unparse(_method(mw, "_CompressionMiddleware", "__init__"))
+    if "self._decode: tuple[Encoding, ...] = tuple((enc for enc in decodable if enc in runtime))" not in init_src or \
+            "decodable = tuple(encode_levels) if decode_encodings is None else tuple(decode_encodings)" not in init_src:
+        raise Shape("compression: __init__ does not keep `decode_encodings` filtered by the runtime codecs")
 
     body_l = f"""namespace VgiVerif.Gen.ReqBody
 
@@ -262,6 +290,13 @@ def decodedCapIsRequestCap : Bool := {_b(decoded_cap_is_request_cap)}
 def wireCapBeforeDecode : Bool := {_b(cap_before_decode)}
 /-- request codings a server can be configured to decode (`decodable`), in order -/
 def decodable : List String := [{", ".join('"' + d + '"' for d in decodable)}]
+/-- how `decodable` (→ `decode_encodings` → `self._decode`) is computed: "runtime_minus_disabled_zstd" = assigned once,
+outside any conditional, as `(ZSTD, GZIP)` filtered by `enc in runtime and not (zstd_disabled and enc is ZSTD)` — in
+particular not dependent on `compression_level` -/
+def decodeWiring : String := "runtime_minus_disabled_zstd"
+/-- `zstd_disabled = os.environ.get(<var>) == <value>` -/
+def disableZstdEnv : String := "{menv.group(1)}"
+def disableZstdValue : String := "{menv.group(2)}"
 /-- `_get_request_stream`: decompressed stream, else capped body, else `bounded_stream.read()` -/
 def requestStreamOrderOk : Bool := {_b(stream_order_ok)}
 
